@@ -1,6 +1,7 @@
 """C01 - completed operations are never re-executed; their recorded outcome is returned."""
 from checks import oracles
 from checks.durable_check import replay_execution, run_durable
+from checks.executor_common import batch_items_own_outcome
 
 
 def page_fault_sweep(ctx, execs):
@@ -27,14 +28,28 @@ def run(ctx):
                 model=["s01_step_wait_retry", "s03_child_wfc", "s04_cb_invoke", "s07_nested_children", "s08_large_child"],
                 programs=["s01_step_wait_retry", "s03_child_wfc", "s04_cb_invoke", "s05_wfcb_childfail_wfcfail", "s07_nested_children",
                           "s08_large_child", "s12_wfc_three_polls", "s13_child_raises_caught", "s17_child_wfc_inside",
+                          # recorded FAILURES with unusual error content (empty message, no arguments at all, a non-string): the
+                          # replay must raise the recorded error, not a substitute
+                          {"nodes": [{"k": "step", "fail": -1, "max": 1, "caught": True, "errmsg": ""}, {"k": "wait"},
+                                     {"k": "step", "fail": -1, "max": 2, "caught": True, "errmsg": "<none>", "errtype": "ValueError"}, {"k": "wait"},
+                                     {"k": "step"}]},
+                          {"nodes": [{"k": "child", "caught": True, "body": [{"k": "step"}, {"k": "step", "fail": -1, "max": 1, "errmsg": ""}]},
+                                     {"k": "wait"}, {"k": "step"}, {"k": "wait"}]},
+                          {"nodes": [{"k": "map", "caught": True, "cfg": {"tolc": 2}, "braise": [0], "branches": [[], [{"k": "step", "fail": -1, "max": 1, "errmsg": "<none>", "errtype": "ValueError"}], [{"k": "step"}]]},
+                                     {"k": "wait"}, {"k": "step", "fail": -1, "max": 1, "caught": True, "errmsg": 0, "errtype": "ValueError"}, {"k": "wait"}]},
                           # map / parallel: a branch that parks on a timer and is resumed inside the same invocation (a sibling is
                           # still running) re-traverses its completed operations; re-invocation after the whole call suspended
+                          # oversized map / parallel results with mixed outcomes, rebuilt from the children's records on replay
+                          {"nodes": [{"k": "map", "explicit_cfg": True, "large_items": [0, 2], "cfg": {"tolc": 1}, "braise": [1], "caught": True,
+                                      "branches": [[{"k": "step"}], [], [{"k": "step"}], [{"k": "step"}]]}, {"k": "wait"}, {"k": "step"}]},
+                          {"nodes": [{"k": "par", "explicit_cfg": True, "maxc": 1, "large_items": [0], "cfg": {"min": 2, "tolc": 1}, "braise": [1],
+                                      "caught": True, "branches": [[{"k": "step"}], [], [{"k": "step"}], [{"k": "step"}]]}, {"k": "wait"}]},
                           {"nodes": [{"k": "par", "branches": [[{"k": "step"}, {"k": "wait", "s": 1}, {"k": "step"}],
                                                                [{"k": "step", "dur": 3}]]}, {"k": "step"}]},
                           {"nodes": [{"k": "map", "maxc": 2, "branches": [[{"k": "step"}, {"k": "step", "fail": 1, "max": 2, "delay": 1}],
                                                                           [{"k": "step", "dur": 2.5}, {"k": "wait", "s": 1}, {"k": "step"}],
                                                                           [{"k": "step"}]]}, {"k": "wait"}, {"k": "step"}]}],
-                oracle_fns=[oracles.c01],
+                oracle_fns=[oracles.c01, batch_items_own_outcome],
                 scen_kw={"crash": 0.6, "paging": 0.7},
                 sweep=["s03_child_wfc"],
                 post=page_fault_sweep,
